@@ -116,8 +116,13 @@ def split_lines(data: Union[str, bytes]) -> List[str]:
     return [ln.strip() for ln in re.split(r"\r\n|\n|\r", data)]
 
 
-def parse(data: Union[str, bytes, List[str]], layout: str = "BME") -> dict:
-    """Interpret a BMS text (str, shift_jis bytes, or list of lines). See module doc."""
+def parse(data: Union[str, bytes, List[str]], layout: str = "BME", ids_as_spelled: bool = False) -> dict:
+    """Interpret a BMS text (str, shift_jis bytes, or list of lines). See module doc.
+
+    ids_as_spelled=False (default): object / #WAV / #BPMxx / #LNOBJ ids are upper-cased and any lower-case spelling is
+    reported as the 'lowercase-id' conflict (outside the domain).  True: ids are taken exactly as spelled (a text that
+    spells every id the same way in its headers and its data denotes the same chart under either reading); channel-03
+    hexadecimal values are case-insensitive in both modes."""
     lay = LAYOUTS[layout]
     lines = [ln.strip() for ln in data] if isinstance(data, list) else split_lines(data)
 
@@ -142,7 +147,9 @@ def parse(data: Union[str, bytes, List[str]], layout: str = "BME") -> dict:
             if not seq or not _IDS_RE.match(seq):
                 bad.append(ln)
                 continue
-            if ch != ch.upper() or seq != seq.upper():
+            if ids_as_spelled:
+                ch = ch.upper()
+            elif ch != ch.upper() or seq != seq.upper():
                 conflicts.add("lowercase-id")
                 ch, seq = ch.upper(), seq.upper()
             key = f"{meas:03d}{ch}"
@@ -167,18 +174,20 @@ def parse(data: Union[str, bytes, List[str]], layout: str = "BME") -> dict:
         raw_key, val = m.group(1), (m.group(2) or "")
         key = raw_key.upper()
         if len(key) == 5 and key.startswith("WAV"):
-            if raw_key[3:] != raw_key[3:].upper():
+            kid = raw_key[3:] if ids_as_spelled else key[3:]
+            if raw_key[3:] != raw_key[3:].upper() and not ids_as_spelled:
                 conflicts.add("lowercase-id")
-            if key[3:] in samples:
+            if kid in samples:
                 conflicts.add("duplicate-header")
-            samples[key[3:]] = val
+            samples[kid] = val
         elif len(key) == 5 and key.startswith("BPM"):
-            if raw_key[3:] != raw_key[3:].upper():
+            kid = raw_key[3:] if ids_as_spelled else key[3:]
+            if raw_key[3:] != raw_key[3:].upper() and not ids_as_spelled:
                 conflicts.add("lowercase-id")
-            if key[3:] in exbpms:
+            if kid in exbpms:
                 conflicts.add("duplicate-header")
             try:
-                exbpms[key[3:]] = float(val)
+                exbpms[kid] = float(val)
             except ValueError:
                 bad.append(ln)
         else:
@@ -195,7 +204,7 @@ def parse(data: Union[str, bytes, List[str]], layout: str = "BME") -> dict:
     if bpm0 is None:
         conflicts.add("no-bpm")
     lnobj = header.get("LNOBJ") or None
-    if lnobj is not None and lnobj != lnobj.upper():
+    if lnobj is not None and lnobj != lnobj.upper() and not ids_as_spelled:
         conflicts.add("lowercase-id")
         lnobj = lnobj.upper()
 
